@@ -783,7 +783,12 @@ class _PSP:
             hw = pool[:n]
             terms = draw(_pauli_ham(hw, 1 if name == "PrepSelPrep" else 2, 5))
             c = max(1, ceil(log2(len(terms)))) + draw(st.sampled_from([0, 0, 1]))
-            return {"t": name, "hw": hw, "terms": terms, "cw": pool[n:n + c], "as": draw(st.sampled_from(["dot", "lc", "sum"]))}
+            # PrepSelPrep block-encodes any linear combination of unitaries: complex coefficients c_k e^{i phi_k} (Qubitization needs
+            # a Hermitian operator, so its coefficients stay real)
+            phases = None
+            if name == "PrepSelPrep" and draw(st.booleans()):
+                phases = [draw(st.sampled_from([0.0, 0.7, -1.3, 1.5707963267948966, 2.4, 3.141592653589793, -2.9])) for _ in terms]
+            return {"t": name, "hw": hw, "terms": terms, "cw": pool[n:n + c], "as": draw(st.sampled_from(["dot", "lc", "sum"])), "phases": phases}
         return g()
 
     @classmethod
@@ -792,6 +797,8 @@ class _PSP:
 
         hw, cw = [_w(x) for x in spec["hw"]], [_w(x) for x in spec["cw"]]
         terms = spec["terms"]
+        if spec.get("phases"):
+            terms = [(complex(c * np.exp(1j * ph)), wd) for (c, wd), ph in zip(terms, spec["phases"])]
         coeffs = [c for c, _ in terms]
         words = [pl_word(wd, hw) for _, wd in terms]
         if spec["as"] == "lc":
@@ -824,7 +831,9 @@ class _PSP:
                         ctx.viol("wrong-eigenphase", f"no eigenphase +-arccos(E/lambda)={want:.6f} for E={Ek:.6f}, lambda={lam:.6f}; "
                                  f"phases {np.round(np.sort(ph), 5).tolist()}", route)
         ctx.labels += [f"{cls.NAME}:terms={len(terms)}", f"{cls.NAME}:{spec['as']}", f"{cls.NAME}:extra-control={len(cw) - max(1, ceil(log2(len(terms))))}"]
-        return len(terms) >= 2 and any(c < 0 for c in coeffs) or len(terms) >= 2
+        if spec.get("phases"):
+            ctx.labels.append("PrepSelPrep:complex-coefficients")
+        return len(terms) >= 2
 
 
 @template("Qubitization")
